@@ -90,6 +90,8 @@ def corpus_cases():
 def gen_cb_cases(rng, consts, n):
     rows = consts["options"]
     out = []
+    if not rows:
+        return out                                # registry not recognised and no reference constants: nothing to aim at
     for _ in range(n):
         r = rng.random()
         row = rng.choice(rows)
